@@ -28,9 +28,27 @@ EXACT_STREAM_KINDS = {
 }
 
 
+VOTED = {"tx.hashes", "tx.pubkey", "tx.process", "tx.replace", "tx.consolidate"}
+QUORUM_CLASSES = ("voters-length", "signature", "sequence", "epoch", "not-proposer", "bitmap-length", "validate", "nil-vote")
+
+
+def div_c01(w):
+    """The model accepts only with a genuine quorum (theorem C01_accept_sound + *_needs_quorum).  The
+    implementation accepting a voted message that the model rejects for a quorum-related reason is a
+    proposal taking effect without the quorum the property demands."""
+    kind = w["op"].split(" ")[1]
+    return kind in VOTED and crit(w["impl"]) == "ok" and crit(w["model"]) != "ok" and any(c in w["model"] for c in QUORUM_CLASSES)
+
+
+DIV_RULES = {"C01": div_c01}
+
+
 def divergence_is_violation(pid, witness):
     kind = witness["op"].split(" ")[1] if witness.get("op") else ""
-    return kind in EXACT_STREAM_KINDS.get(pid, set())
+    if kind in EXACT_STREAM_KINDS.get(pid, set()):
+        return True
+    f = DIV_RULES.get(pid)
+    return bool(f and f(witness))
 
 
 def mon_c04(pid, run):
